@@ -41,7 +41,8 @@ ASSUMPTIONS = [
 ]
 BOUNDS = {
     'quick': 'gates of dimension <= 8 with closed-form source; composed gates over RX/RY/U3/CRX with 1-2 controls, '
-             'radix 2-3, powers -2..3, every frozen subset of U3; all real parameter vectors (unbounded)',
+             'radix 2-3, powers -2..3, every frozen subset of U3, embeddings into uniform and NON-uniform target radixes '
+             '([2,3], [3,4], [3,2], [4,3], [2,3,4]); all real parameter vectors (unbounded)',
     'thorough': 'same catalogue + cvc5 cross-check of every non-trivial query, wider constructor spaces '
                 '(control levels on qutrits, embedded level maps, MPRY/MPRZ/Diagonal up to 3 qubits)',
 }
